@@ -37,6 +37,18 @@ CHECKS = {
  "C12": ("I", "exhaustive enumeration of the full product CORS configuration x request against a reference decision table (completeness clauses)",
          "Same product as C11: for allowed origins on served methods the grant headers, credentials and expose list must be exactly as configured; successful preflights carry Allow-Methods = the route's Allow set, the configured Allow-Headers and Max-Age; non-preflights carry none of them; Vary names Origin / Access-Control-Request-Method / -Headers as the property prescribes.",
          "As C11; requests whose Access-Control-Request-Headers consists only of empty list items are outside the completeness oracle (ambiguous).", "4/C11-C12"),
+ "C13": ("I", "exhaustive enumeration of group configurations (ordered router lists x matcher alphabet incl. And/Or composites x New/Add/Use/Remove variants) x requests, against pure reference matchers and a stand-alone table model of the winning router",
+         "Every ordered list of <=2 routers over 12 matchers (plus triples with a composite among the first two; thorough: all triples), four construction variants, Remove of each router, duplicate-name attempts; x 288 requests (4 hosts x 6 paths x 4 Accept values x 3 methods): winner = first router whose reference matcher accepts the request as originally received; handler, router name, URL.Path seen by the handler, merged parameters and middleware trail must match; no winner = group not-found.",
+         "Finite matcher alphabet and request classes; each router holds /x and /{p}.", "4/C13"),
+ "C14": ("S", "explicit-state BFS over Add/Delete/RegisterInterceptor histories of a real Hosts value, reference resolver over the live domain patterns on every state",
+         "Every history up to depth 4 (quick) / 5 (thorough) over 12 domains (six literals to cross the index threshold, parameterised and interceptor domains, mixed case); ~760 host probes per state (witness in 8 spellings incl. ports and brackets, edit-1 neighbours): accept iff the normalised host resolves, parameters exactly the pattern's, Delete leaves other answers unchanged.",
+         "Bounded depth and pool; normalisation rule transcribed from the property statement.", "4/C14"),
+ "C15": ("I", "exhaustive small-scope enumeration of matcher configurations x all paths / Accept values against reference matchers",
+         "Path-version: every ordered list of <=2 (quick) / 3 (thorough) of 7 version spellings x 2 param names x all 97k paths over {/ v 1 2 x} up to length 7 (9.6M matches quick); header-version: 3 keys x 8 version lists x 2 params x 5 media types x 144 parameter-pair spellings plus malformed values. Accept/reject, rewritten URL.Path, recorded parameter, untouched request and parameters on rejection.",
+         "Finite alphabets; mime.ParseMediaType is the stated parser and shared with the reference.", "4/C15"),
+ "C16": ("S", "exhaustive enumeration of fault sequences (panic site x panic value, interleaved with normal and nested requests) on long-lived Router and Group instances, on the deterministic LIFO context pool",
+         "10 instance kinds (Router / Group x none / WithRecovery / WithStatusRecovery; New inheriting and overriding; Add with/without own option) x all sequences of <=2 events with 7 panic values and <=3 events with 2 values (thorough: 3 and 4) over 18 panic sites + 3 normal requests, one of which issues a second request from inside its handler: containment, exactly-once delivery of the identical value to the function in force, continued service with own parameters at handler entry and exit, pass-through without the option.",
+         "Runs on the overlay build so that the context pool is a drainable LIFO free list (each sequence starts from an empty pool).", "4/C16"),
  "C17": ("S", "explicit-state BFS over registration histories; in every state every member of a rejected-call set is executed on a replayed copy and the full observation vector is compared before/after; positive clauses by exhaustive enumeration of ordered pattern pairs",
          "Every state over the C04 alphabet up to depth 2 (quick) / 4 (thorough), with and without WithTrace, x ~80 rejected Handle calls (duplicates, bad method lists in every position, malformed patterns sharing prefixes, rename-only patterns): must panic with an error value and leave Routes(), all dispatch outcomes, Allow headers and OPTIONS * unchanged. All ordered pairs over the dispatch pool and its renamed / '-'-flipped variants decide always-rejected and never-falsely-ambiguous.",
          "Bounded depth and pools; internal restructuring without observable effect is reported as a note only, as the property is about observable state.", "4/C17"),
